@@ -7,9 +7,30 @@ VARIABLES l, nbad
 
 Rows(o) == [k \in DOMAIN o |-> <<o[k][1], <<o[k][2][1], o[k][2][2]>>, <<o[k][3][1], o[k][3][2]>>, <<o[k][4][1], o[k][4][2]>>>>]
 PP(e) == [k \in DOMAIN e.P |-> <<e.P[k][1], e.P[k][2], e.P[k][3]>>]
+\* growth: synchronize(track1, track2) resamples both tracks at the union of their timestamps lying strictly inside the
+\* common time range; both results carry the same stamps and each is the linear interpolant of its own track
+SetOf(sq) == {sq[k] : k \in DOMAIN sq}
+ClauseSync(e) ==
+   LET p1 == [k \in DOMAIN e.P |-> <<e.P[k][1], e.P[k][2], e.P[k][3]>>]
+       p2 == [k \in DOMAIN e.P2 |-> <<e.P2[k][1], e.P2[k][2], e.P2[k][3]>>]
+       tini == IF e.T[1] > e.T2[1] THEN e.T[1] ELSE e.T2[1]
+       tfin == IF e.T[Len(e.T)] < e.T2[Len(e.T2)] THEN e.T[Len(e.T)] ELSE e.T2[Len(e.T2)]
+       want == {t \in SetOf(e.T) \cup SetOf(e.T2) : tini < t /\ t < tfin}
+       o1 == Rows(e.out)
+       o2 == Rows(e.out2)
+       st1 == [k \in DOMAIN o1 |-> o1[k][1]]
+       st2 == [k \in DOMAIN o2 |-> o2[k][1]]
+   IN IF st1 # st2 THEN "synchronised_tracks_carry_different_timestamps"
+      ELSE IF SetOf(st1) # {500 * t : t \in want} THEN "synchronised_timestamps_are_not_the_common_instants"
+      ELSE IF \E k \in 1..(Len(st1) - 1) : st1[k] > st1[k + 1] THEN "synchronised_timestamps_decrease"
+      ELSE LET ref == [k \in DOMAIN st1 |-> st1[k] \div 500] IN
+           IF AcceptTemporal(e.T, p1, ref, o1) # "ok" THEN "first_track_" \o AcceptTemporal(e.T, p1, ref, o1)
+           ELSE IF AcceptTemporal(e.T2, p2, ref, o2) # "ok" THEN "second_track_" \o AcceptTemporal(e.T2, p2, ref, o2)
+           ELSE "ok"
 Clause(e) ==
    IF e.raised THEN "raised"
    ELSE IF ~e.lat THEN "output_not_on_the_lattice_of_exact_interpolants"
+   ELSE IF e.ev = "sync" THEN ClauseSync(e)
    ELSE IF e.ev = "T" THEN AcceptTemporal(e.T, PP(e), IF e.kind = "step" THEN Requested(e.T, e.d) ELSE e.ref, Rows(e.out))
    ELSE AcceptSpatial(e.T, PP(e), e.d, Rows(e.out))
 
